@@ -861,7 +861,10 @@ SOUP_TOKENS = ["<", ">", "</", "/>", "<a", "<b", "<br", "<br>", "<br/>", "</br>"
                # marked sections whose keyword is not upper case (the tokenizer reports them through the same callback)
                "<![cdata[", "<![CData[x]]>", "<![cdata[a<b]]>", "<![Cdata[]]>", "<![CDATA [x]]>", "<![ CDATA[x]]>",
                # nodes the parser leaves EMPTY inside whitespace-preserving elements, followed by text; odd whitespace
-               "<pre><!---->x", "<textarea><![CDATA[]]>y", "<pre><?>z<!---->w</pre>", "&#11;", "\x0b", "&#x1c; ", "<p>\x0b</p>"]
+               "<pre><!---->x", "<textarea><![CDATA[]]>y", "<pre><?>z<!---->w</pre>", "&#11;", "\x0b", "&#x1c; ", "<p>\x0b</p>",
+               # one attribute several times in a start tag, with and without a value (a value-less one is the empty string to every
+               # on_duplicate_attribute policy: replace, ignore, callable)
+               "<a id id=1 id>", "<b k k>", "<i class=x class>", "<p rel=x rel rel=y>", "<img src src=u src>", "<td k=1 K=2 k>"]
 
 
 def _cp1252_ok(n):
